@@ -2,50 +2,51 @@ import LokiModel.C42.Lemmas
 /-!
 # C42 — lint results do not depend on parallelism or completion order (property theorems)
 
-All statements hold for **every** configuration (file list, per-file lint function, handlers, number of
-workers `w`) and **every** reachable state of the transition system `step` (every interleaving of
-`start` / per-handler `append` / `finish` events).  "Final" means no file is pending or running.
+All statements hold for **every** configuration (per-file lint function, handlers) and **every** reachable
+state of the transition system `step`: every *session* — any sequence of `lint_files_glob` calls
+(`call files w`, arbitrary file lists and worker counts) on one reporter — and within each call every
+interleaving of `start` / per-handler `append` / `finish` events.  "Final" means no file is pending or
+running (where `Reporter.output()` may be called); `s.all` is the list of all files submitted so far.
 
 * `C42_handlers_perm` — in every final state the list of every handler `k < nh` is a permutation of
-  `files.map (handle k ∘ lint)`, which is exactly what the serial loop produces (`C42_serial_run`);
-  so the per-file entries (and every sub-multiset selected by a predicate, `C42_per_file`) do not depend
-  on the schedule; only their order does (and the order may differ between two handlers).
-* `C42_each_once` — at every moment `pending ++ running ++ done` is a permutation of the file list
-  (no file lost or linted twice); in a final state the completion order and the list of files appended
-  to each handler are permutations of the file list.
-* `C42_count` — `checked_count` is the number of files whose check succeeded, whatever the schedule.
-* `C42_schedule_independent` — two final states for any two worker counts agree up to permutation.
+  `all.map (handle k ∘ lint)`, which is exactly what the session run with one worker produces
+  (`C42_serial_run`); so the per-file entries (and every sub-multiset selected by a predicate,
+  `C42_per_file`) do not depend on the schedule or on the worker counts of the calls; only their order
+  does (and the order may differ between two handlers).
+* `C42_each_once` — at every moment `pending ++ running ++ done` is a permutation of the files submitted
+  (no file lost or linted twice, reports of earlier calls are kept); in a final state the completion order
+  and the list of files appended to each handler are permutations of it.
+* `C42_count` — the summed `checked_count` is the number of files whose check succeeded.
+* `C42_workers_independent` — two sessions submitting the same files (whatever the worker counts, the
+  schedules and even the grouping into calls) end with permutation-equal handler lists and equal counts.
 * `C42_progress`, `C42_serial_run`, `C42_accept_sound`.
-* `C42_disk` — the same permutation statement for what is on disk after `Reporter.output`, for every `w`.
+* `C42_disk` — the same permutation statement for what is on disk after `Reporter.output`.
 -/
 namespace LokiModel.C42
 
 variable {ρ β : Type}
 
-theorem final_lists {s : State β} (hf : isFinal s = true) : s.pending = [] ∧ s.running = [] := by
-  simpa [isFinal] using hf
-
 /-- **C42, each file exactly once**: in every reachable state the files pending, running and done are
-together a permutation of the file list; in a final state the completion order, and for every handler
-the list of files that appended to it, are permutations of the file list. -/
+together a permutation of the files submitted so far; in a final state the completion order, and for
+every handler the list of files that appended to it, are permutations of the files submitted. -/
 theorem C42_each_once (c : Cfg ρ β) (s : State β) (hr : Reach c s) :
-    (s.pending ++ s.running.map Prod.fst ++ s.done).Perm c.files ∧
-    (isFinal s = true → s.done.Perm c.files ∧ ∀ k, k < c.nh → (s.apps k).Perm c.files) := by
+    (s.pending ++ s.running.map Prod.fst ++ s.done).Perm s.all ∧
+    (isFinal s = true → s.done.Perm s.all ∧ ∀ k, k < c.nh → (s.apps k).Perm s.all) := by
   have hi := inv_reach c hr
   refine ⟨hi.perm, ?_⟩
   intro hf
   obtain ⟨h1, h2⟩ := final_lists hf
-  have hd : s.done.Perm c.files := by simpa [h1, h2] using hi.perm
+  have hd : s.done.Perm s.all := by simpa [h1, h2] using hi.perm
   refine ⟨hd, ?_⟩
   intro k hk
   have := hi.apps k hk
   rw [h2] at this
   exact (by simpa [served] using this : (s.apps k).Perm s.done).trans hd
 
-/-- **C42, handler lists are permutations of the serial result**: for every schedule reaching a final
-state, the list of handler `k` is a permutation of `files.map (handle k ∘ lint)`. -/
+/-- **C42, handler lists are permutations of the serial result**: for every session and schedule reaching
+a final state, the list of handler `k` is a permutation of `all.map (handle k ∘ lint)`. -/
 theorem C42_handlers_perm (c : Cfg ρ β) (s : State β) (hr : Reach c s) (hf : isFinal s = true)
-    (k : Nat) (hk : k < c.nh) : (s.outs k).Perm (serialOut c k) := by
+    (k : Nat) (hk : k < c.nh) : (s.outs k).Perm (serialOut c s.all k) := by
   have hi := inv_reach c hr
   rw [hi.outs k]
   exact (((C42_each_once c s hr).2 hf).2 k hk).map _
@@ -54,34 +55,77 @@ theorem C42_handlers_perm (c : Cfg ρ β) (s : State β) (hr : Reach c s) (hf : 
 file `f`") the selected entries of a final handler list are a permutation of the selected entries of the
 serial result. -/
 theorem C42_per_file (c : Cfg ρ β) (s : State β) (hr : Reach c s) (hf : isFinal s = true)
-    (k : Nat) (hk : k < c.nh) (p : β → Bool) : ((s.outs k).filter p).Perm ((serialOut c k).filter p) :=
+    (k : Nat) (hk : k < c.nh) (p : β → Bool) : ((s.outs k).filter p).Perm ((serialOut c s.all k).filter p) :=
   (C42_handlers_perm c s hr hf k hk).filter p
 
-/-- **C42, checked count**: in a final state `checked_count` is the number of files whose check
-returned `True`, whatever the schedule. -/
+/-- **C42, checked count**: in a final state the summed `checked_count` is the number of submitted files
+whose check returned `True`, whatever the schedule. -/
 theorem C42_count (c : Cfg ρ β) (s : State β) (hr : Reach c s) (hf : isFinal s = true) :
-    s.count = c.files.countP (fun f => c.ok (c.lint f)) := by
+    s.count = s.all.countP (fun f => c.ok (c.lint f)) := by
   have hi := inv_reach c hr
   rw [hi.count]
   exact ((C42_each_once c s hr).2 hf).1.countP_eq _
 
-/-- **C42, schedule independence**: two final states over the same files, lint function and handlers,
-for any two worker counts and any two schedules (in particular the serial run and a parallel one), have
-permutation-equal handler lists and the same count. -/
-theorem C42_schedule_independent (c1 c2 : Cfg ρ β) (hfiles : c1.files = c2.files) (hlint : c1.lint = c2.lint)
-    (hok : c1.ok = c2.ok) (hnh : c1.nh = c2.nh) (hh : c1.handle = c2.handle) (s1 s2 : State β)
-    (hr1 : Reach c1 s1) (hr2 : Reach c2 s2) (hf1 : isFinal s1 = true) (hf2 : isFinal s2 = true) :
-    s1.count = s2.count ∧ ∀ k, k < c1.nh → (s1.outs k).Perm (s2.outs k) := by
-  refine ⟨?_, ?_⟩
-  · rw [C42_count c1 s1 hr1 hf1, C42_count c2 s2 hr2 hf2, hfiles, hlint, hok]
-  · intro k hk
-    have p1 := C42_handlers_perm c1 s1 hr1 hf1 k hk
-    have p2 := C42_handlers_perm c2 s2 hr2 hf2 k (hnh ▸ hk)
-    have : serialOut c1 k = serialOut c2 k := by simp only [serialOut, hfiles, hlint, hh]
-    exact p1.trans (this ▸ p2.symm)
+theorem all_of_replay (c : Cfg ρ β) : ∀ (es : List Ev) (s s' : State β), replay c s es = some s' →
+    s'.all = s.all ++ filesOf es := by
+  intro es
+  induction es with
+  | nil => intro s s' h; simp only [replay, Option.some.injEq] at h; subst h; simp [filesOf]
+  | cons e es ih =>
+    intro s s' h
+    simp only [replay] at h
+    split at h
+    · rename_i s1 hs1
+      have h2 := ih s1 s' h
+      cases e with
+      | call fs w =>
+        simp only [step] at hs1
+        split at hs1
+        · simp only [Option.some.injEq] at hs1; subst hs1
+          simp only [filesOf]; rw [h2]; simp
+        · cases hs1
+      | start i =>
+        simp only [step] at hs1
+        split at hs1
+        · simp only [Option.some.injEq] at hs1; subst hs1; simpa [filesOf] using h2
+        · cases hs1
+      | append i pc =>
+        simp only [step] at hs1
+        split at hs1
+        · simp only [Option.some.injEq] at hs1; subst hs1; simpa [filesOf] using h2
+        · cases hs1
+      | finish i =>
+        simp only [step] at hs1
+        split at hs1
+        · simp only [Option.some.injEq] at hs1; subst hs1; simpa [filesOf] using h2
+        · cases hs1
+    · cases h
 
-/-- **C42, no deadlock**: with at least one worker every non-final state has an enabled event. -/
-theorem C42_progress (c : Cfg ρ β) (hw : 1 ≤ c.w) (s : State β) (hr : Reach c s) (hf : isFinal s = false) :
+/-- **C42, independence of worker counts and schedules**: two sessions (event lists from a fresh
+reporter) whose calls submit the same files — with any worker counts, any interleavings, any grouping
+into calls, in particular the session run entirely with one worker — end, when final, with the same count
+and permutation-equal handler lists.  (`Reporter.init_parallel` keeping the accumulated lists is what
+makes this true across calls.) -/
+theorem C42_workers_independent (c : Cfg ρ β) (es1 es2 : List Ev) (s1 s2 : State β)
+    (h1 : replay c init es1 = some s1) (h2 : replay c init es2 = some s2)
+    (hfiles : (filesOf es1).Perm (filesOf es2)) (hf1 : isFinal s1 = true) (hf2 : isFinal s2 = true) :
+    s1.count = s2.count ∧ ∀ k, k < c.nh → (s1.outs k).Perm (s2.outs k) := by
+  have hr1 := replay_reach c es1 init s1 Reach.init h1
+  have hr2 := replay_reach c es2 init s2 Reach.init h2
+  have ha : s1.all.Perm s2.all := by
+    rw [all_of_replay c es1 init s1 h1, all_of_replay c es2 init s2 h2]
+    simpa [init] using hfiles
+  refine ⟨?_, ?_⟩
+  · rw [C42_count c s1 hr1 hf1, C42_count c s2 hr2 hf2]
+    exact ha.countP_eq _
+  · intro k hk
+    have p1 := C42_handlers_perm c s1 hr1 hf1 k hk
+    have p2 := C42_handlers_perm c s2 hr2 hf2 k hk
+    exact p1.trans ((ha.map _).trans p2.symm)
+
+/-- **C42, no deadlock**: with at least one worker every reachable non-final state has an enabled event
+(in a final state the next `call` is always enabled). -/
+theorem C42_progress (c : Cfg ρ β) (s : State β) (hw : 1 ≤ s.w) (hr : Reach c s) (hf : isFinal s = false) :
     ∃ e s', step c s e = some s' := by
   cases hrun : s.running with
   | cons r rs =>
@@ -93,15 +137,14 @@ theorem C42_progress (c : Cfg ρ β) (hw : 1 ≤ c.w) (s : State β) (hr : Reach
       · refine ⟨Ev.finish i, ?_⟩
         subst heq
         simp [step, hrun]
-      · -- counters never exceed nh: (i, pc) with pc > nh would have served handler nh
-        exfalso
+      · exfalso
         exact pc_le c s hr i pc (by simp [hrun]) (by omega)
   | nil =>
     cases hp : s.pending with
     | nil => simp [isFinal, hrun, hp] at hf
     | cons p ps =>
       refine ⟨Ev.start p, ?_⟩
-      have : 0 < c.w := hw
+      have : 0 < s.w := hw
       simp [step, hrun, hp, this]
 where
   pc_le (c : Cfg ρ β) (s : State β) (hr : Reach c s) (i pc : Nat) (hm : (i, pc) ∈ s.running) (hgt : c.nh < pc) : False := by
@@ -109,6 +152,12 @@ where
     | init => simp [init] at hm
     | @step s0 s1 e _ hs ih =>
       cases e with
+      | call fs w =>
+        simp only [step] at hs
+        split at hs
+        · simp only [Option.some.injEq] at hs; subst hs
+          exact ih i pc hm hgt
+        · cases hs
       | start j =>
         simp only [step] at hs
         split at hs
@@ -138,19 +187,19 @@ where
 
 theorem appends_aux (c : Cfg ρ β) (f : Nat) : ∀ (n pc : Nat) (s : State β), s.running = [(f, pc)] → pc + n = c.nh →
     ∃ s', replay c s (appendsFrom f pc n) = some s' ∧ s'.running = [(f, c.nh)] ∧ s'.pending = s.pending ∧
-      s'.done = s.done := by
+      s'.done = s.done ∧ s'.w = s.w := by
   intro n
   induction n with
   | zero =>
     intro pc s h1 h2
-    exact ⟨s, rfl, by rw [h1]; simp at h2; rw [h2], rfl, rfl⟩
+    exact ⟨s, rfl, by rw [h1]; simp at h2; rw [h2], rfl, rfl, rfl⟩
   | succ n ih =>
     intro pc s h1 h2
     have hlt : pc < c.nh := by omega
     let s2 : State β := { s with running := [(f, pc + 1)], apps := upd s.apps pc (s.apps pc ++ [f]),
                                  outs := upd s.outs pc (s.outs pc ++ [c.handle pc (c.lint f)]) }
-    obtain ⟨s', hs', hr', hp', hd'⟩ := ih (pc + 1) s2 rfl (by omega)
-    refine ⟨s', ?_, hr', hp', hd'⟩
+    obtain ⟨s', hs', hr', hp', hd', hw'⟩ := ih (pc + 1) s2 rfl (by omega)
+    refine ⟨s', ?_, hr', hp', hd', hw'⟩
     simp only [appendsFrom, replay]
     simp [step, h1, hlt]
     exact hs'
@@ -168,21 +217,21 @@ theorem replay_append (c : Cfg ρ β) : ∀ (es1 es2 : List Ev) (s s1 : State β
       exact ih es2 s0 s1 h
     · cases h
 
-theorem serial_aux (c : Cfg ρ β) (hw : 1 ≤ c.w) : ∀ (l : List Nat) (s : State β), s.pending = l → s.running = [] →
+theorem serial_aux (c : Cfg ρ β) : ∀ (l : List Nat) (s : State β), 1 ≤ s.w → s.pending = l → s.running = [] →
     ∃ s', replay c s (serialEvents c.nh l) = some s' ∧ isFinal s' = true ∧ s'.done = s.done ++ l := by
   intro l
   induction l with
   | nil =>
-    intro s h1 h2
+    intro s _ h1 h2
     exact ⟨s, rfl, by simp [isFinal, h1, h2], by simp⟩
   | cons f fs ih =>
-    intro s h1 h2
-    have hpos : 0 < c.w := hw
+    intro s hw h1 h2
+    have hpos : 0 < s.w := hw
     let s1 : State β := { s with pending := fs, running := [(f, 0)] }
-    obtain ⟨s2, hs2, hr2, hp2, hd2⟩ := appends_aux c f c.nh 0 s1 rfl (by omega)
+    obtain ⟨s2, hs2, hr2, hp2, hd2, hw2⟩ := appends_aux c f c.nh 0 s1 rfl (by omega)
     let s3 : State β := { s2 with running := [], done := s2.done ++ [f],
                                   count := s2.count + (if c.ok (c.lint f) then 1 else 0) }
-    obtain ⟨s', hs', hf', hd'⟩ := ih s3 (by simp [s3, hp2, s1]) rfl
+    obtain ⟨s', hs', hf', hd'⟩ := ih s3 (by simp [s3, hw2, s1]; exact hw) (by simp [s3, hp2, s1]) rfl
     refine ⟨s', ?_, hf', by rw [hd']; simp [s3, hd2, s1]⟩
     simp only [serialEvents, replay]
     have hstart : step c s (Ev.start f) = some s1 := by simp [step, h1, h2, hpos, s1]
@@ -194,36 +243,60 @@ theorem serial_aux (c : Cfg ρ β) (hw : 1 ≤ c.w) : ∀ (l : List Nat) (s : St
     rw [hfin]
     exact hs'
 
-/-- **C42, the serial loop is a run** whose handler lists are exactly `serialOut` (in file order). -/
-theorem C42_serial_run (c : Cfg ρ β) (hw : 1 ≤ c.w) :
-    ∃ s, replay c (init c) (serialEvents c.nh c.files) = some s ∧ Reach c s ∧ isFinal s = true ∧
-      s.done = c.files := by
-  obtain ⟨s, h1, h2, h3⟩ := serial_aux c hw c.files (init c) rfl rfl
+theorem session_aux (c : Cfg ρ β) : ∀ (calls : List (List Nat)) (s : State β), isFinal s = true →
+    ∃ s', replay c s (sessionSerial c.nh calls) = some s' ∧ isFinal s' = true ∧
+      s'.done = s.done ++ calls.flatten := by
+  intro calls
+  induction calls with
+  | nil => intro s hf; exact ⟨s, rfl, hf, by simp⟩
+  | cons fs rest ih =>
+    intro s hf
+    let s1 : State β := { s with all := s.all ++ fs, w := 1, pending := fs }
+    have hcall : step c s (Ev.call fs 1) = some s1 := by simp [step, hf, s1]
+    have hrun : s.running = [] := (final_lists hf).2
+    obtain ⟨s2, hs2, hf2, hd2⟩ := serial_aux c fs s1 (by simp [s1]) rfl (by simp [s1, hrun])
+    obtain ⟨s3, hs3, hf3, hd3⟩ := ih s2 hf2
+    refine ⟨s3, ?_, hf3, by rw [hd3, hd2]; simp [s1]⟩
+    simp only [sessionSerial, replay]
+    rw [hcall]
+    show replay c s1 (serialEvents c.nh fs ++ sessionSerial c.nh rest) = some s3
+    rw [replay_append c _ _ s1 s2 hs2]
+    exact hs3
+
+/-- **C42, the one-worker session is a run**: for every sequence of calls, running each call with the
+serial loop is accepted, ends final, has submitted exactly the files of the calls and completed them in
+file order (so its handler lists are exactly `serialOut`, by the invariant). -/
+theorem C42_serial_run (c : Cfg ρ β) (calls : List (List Nat)) :
+    ∃ s : State β, replay c init (sessionSerial c.nh calls) = some s ∧ Reach c s ∧ isFinal s = true ∧
+      s.done = calls.flatten ∧ s.all.Perm calls.flatten := by
+  obtain ⟨s, h1, h2, h3⟩ := session_aux c calls init (by simp [isFinal, init])
   have hr := replay_reach c _ _ _ Reach.init h1
-  exact ⟨s, h1, hr, h2, by simpa [init] using h3⟩
+  have hd : s.done = calls.flatten := by simpa [init] using h3
+  exact ⟨s, h1, hr, h2, hd, hd ▸ (((C42_each_once c s hr).2 h2).1).symm⟩
 
 /-- **C42, trace validation is sound**: an event list accepted by `replay` is a run. -/
-theorem C42_accept_sound (c : Cfg ρ β) (es : List Ev) (s : State β) (h : replay c (init c) es = some s) :
+theorem C42_accept_sound (c : Cfg ρ β) (es : List Ev) (s : State β) (h : replay c init es = some s) :
     Reach c s :=
-  replay_reach c es (init c) s Reach.init h
+  replay_reach c es init s Reach.init h
 
 /-! ## what reaches the disk -/
 
 /-- **C42 including the output files (full strength since the `fix:` commit)**: for every configuration,
-every worker count and every final state, the content on disk of every handler's file is defined and is a
+every session and every final state, the content on disk of every handler's file is defined and is a
 permutation of the serial result.  Before the fix this held only for the serial path
 (`Findings/C42.lean: C42_old_output_lost`). -/
 theorem C42_disk (c : Cfg ρ β) (s : State β) (hr : Reach c s) (hf : isFinal s = true) (k : Nat) (hlt : k < c.nh) :
-    ∃ l, onDisk c s k = some l ∧ l.Perm (serialOut c k) :=
+    ∃ l, onDisk c s k = some l ∧ l.Perm (serialOut c s.all k) :=
   ⟨s.outs k, rfl, C42_handlers_perm c s hr hf k hlt⟩
 
-/-! non-vacuity: three files, two handlers, two workers; the two handler lists end up in different orders -/
-def exCfg : Cfg Nat Nat := { files := [0, 1, 2], lint := fun f => 10 * f, ok := fun r => r != 10, nh := 2,
-                             handle := fun k r => r + k + 1, w := 2 }
-example : (replay exCfg (init exCfg) [.start 0, .start 1, .append 0 0, .append 1 0, .append 1 1, .append 0 1,
+/-! non-vacuity: two calls on one reporter (serial, then two workers); the two handler lists end up in
+different orders and the reports of the first call are still there -/
+def exCfg : Cfg Nat Nat := { lint := fun f => 10 * f, ok := fun r => r != 10, nh := 2, handle := fun k r => r + k + 1 }
+example : (replay exCfg init [.call [7] 1, .start 7, .append 7 0, .append 7 1, .finish 7,
+      .call [0, 1, 2] 2, .start 0, .start 1, .append 0 0, .append 1 0, .append 1 1, .append 0 1,
       .finish 1, .start 2, .finish 0, .append 2 0, .append 2 1, .finish 2]).map
     (fun s => (s.done, s.outs 0, s.outs 1, s.count, isFinal s)) =
-    some ([1, 0, 2], [1, 11, 21], [12, 2, 22], 2, true) := by decide
+    some ([7, 1, 0, 2], [71, 1, 11, 21], [72, 12, 2, 22], 3, true) := by decide
 example : acceptEvents [0, 1, 2] 2 2 [[0, 1, 2], [1, 0, 2]] =
     some [.start 0, .append 0 0, .start 1, .append 1 0, .append 1 1, .finish 1, .append 0 1, .finish 0,
           .start 2, .append 2 0, .append 2 1, .finish 2] := by decide
